@@ -89,6 +89,8 @@ def _functions_of(ns, modname):
     out = {}
     for name, obj in list(ns.items()):
         if inspect.isfunction(obj) and obj.__module__ == modname:
+            while inspect.isfunction(getattr(obj, "__wrapped__", None)):  # script_if_tracing etc.
+                obj = obj.__wrapped__
             out[name] = obj
         elif inspect.isclass(obj) and obj.__module__ == modname:
             for attr, v in list(vars(obj).items()):
